@@ -441,9 +441,8 @@ func (p *parser) quantifier() (min, max int) {
 		}
 		v, err := strconv.Atoi(p.src[s:p.pos])
 		if err != nil {
-			// No limit is documented; lex rejects what does not fit an int.
-			p.unspec("quantifier-magnitude")
-			p.fail("bad-quantifier", "repeat count does not fit")
+			// "{abc}{99999999999999999999}" is an error in regexp_test.go.
+			p.fail("bad-quantifier", "repeat count does not fit an int")
 		}
 		return v, true
 	}
@@ -689,6 +688,11 @@ func (p *parser) class(outer bool) (Set, string) {
 		c, w := p.peekW()
 		if c > max {
 			p.fail("byte-mode-char", fmt.Sprintf("U+%04X in a byte mode class", c))
+		}
+		if p.o.Bytes && c >= 0x80 {
+			// "{#bytes}[é]": lex takes the byte 0xE9, although é is two bytes in the input and
+			// "{#bytes}é" outside brackets means those two bytes. Only > U+00FF is documented (error).
+			p.unspec("byte-mode-latin1-literal-in-class")
 		}
 		p.pos += w
 		return c
